@@ -57,7 +57,8 @@ package qr
 // ---- byte mode (ISO 18004 7.4.5): mode indicator 0100, character count (8 or 16 bits), the bytes,
 // then terminator and padding. qrHdr = length of the segment header.
 //@ define qrHdr(vi *versionInfo, m int) int = 4 + qrCCB(vi, m)
-//@ define qrBitOf(v int, w int, t int) bool = (v / ((t == w-1) ? 1 : ((t == w-2) ? 2 : ((t == w-3) ? 4 : ((t == w-4) ? 8 : ((t == w-5) ? 16 : ((t == w-6) ? 32 : ((t == w-7) ? 64 : ((t == w-8) ? 128 : ((t == w-9) ? 256 : ((t == w-10) ? 512 : ((t == w-11) ? 1024 : ((t == w-12) ? 2048 : ((t == w-13) ? 4096 : ((t == w-14) ? 8192 : ((t == w-15) ? 16384 : 32768)))))))))))))))) % 2 == 1
+// bit t (0 = most significant) of the w-bit binary representation of v
+//@ define qrBitOf(v int, w int, t int) bool = (w - 1 - t == 0) ? ((v / 1) % 2 == 1) : ((w - 1 - t == 1) ? ((v / 2) % 2 == 1) : ((w - 1 - t == 2) ? ((v / 4) % 2 == 1) : ((w - 1 - t == 3) ? ((v / 8) % 2 == 1) : ((w - 1 - t == 4) ? ((v / 16) % 2 == 1) : ((w - 1 - t == 5) ? ((v / 32) % 2 == 1) : ((w - 1 - t == 6) ? ((v / 64) % 2 == 1) : ((w - 1 - t == 7) ? ((v / 128) % 2 == 1) : ((w - 1 - t == 8) ? ((v / 256) % 2 == 1) : ((w - 1 - t == 9) ? ((v / 512) % 2 == 1) : ((w - 1 - t == 10) ? ((v / 1024) % 2 == 1) : ((w - 1 - t == 11) ? ((v / 2048) % 2 == 1) : ((w - 1 - t == 12) ? ((v / 4096) % 2 == 1) : ((w - 1 - t == 13) ? ((v / 8192) % 2 == 1) : ((w - 1 - t == 14) ? ((v / 16384) % 2 == 1) : ((v / 32768) % 2 == 1)))))))))))))))
 //@ func encodeUnicode
 //@   attr init_tables qr.versionInfo
 //@   requires len(content) <= 10000000
@@ -72,3 +73,35 @@ package qr
 //@   loop 1 invariant !res.model[0] && res.model[1] && !res.model[2] && !res.model[3]
 //@   loop 1 invariant forall t int :: 0 <= t && t < qrCCB(vi, 4) ==> res.model[4 + t] == qrBitOf(len(content), qrCCB(vi, 4), t)
 //@   loop 1 invariant forall k int, t int :: 0 <= k && k <= rangeindex && 0 <= t && t < 8 ==> res.model[qrHdr(vi, 4) + 8*k + t] == qrBitOf(content[k], 8, t)
+
+// ---- numeric mode (ISO 18004 7.4.3): mode indicator 0001, character count, groups of three digits
+// as 10 bits, a final group of two digits as 7 bits or of one digit as 4 bits
+//@ define qrDig(c int) bool = 48 <= c && c <= 57
+//@ define qrAllDig(s string) bool = forall k int :: 0 <= k && k < len(s) ==> qrDig(s[k])
+// ASSUMED contract on strconv.Atoi for the strings of one to three bytes it is called with: digits
+// give their decimal value; a result without error whose first byte is a digit consists of digits only
+//@ func extern strconv.Atoi
+//@   ensures (len(s) == 1 && qr.qrDig(s[0])) ==> result1 == nil && result0 == s[0] - 48
+//@   ensures (len(s) == 2 && qr.qrDig(s[0]) && qr.qrDig(s[1])) ==> result1 == nil && result0 == 10*(s[0] - 48) + (s[1] - 48)
+//@   ensures (len(s) == 3 && qr.qrDig(s[0]) && qr.qrDig(s[1]) && qr.qrDig(s[2])) ==> result1 == nil && result0 == 100*(s[0] - 48) + 10*(s[1] - 48) + (s[2] - 48)
+//@   ensures (result1 == nil && len(s) >= 1 && len(s) <= 3 && qr.qrDig(s[0])) ==> (forall k int :: 0 <= k && k < len(s) ==> qr.qrDig(s[k]))
+// width and value of digit group g of an n-digit text
+//@ define qrGW(n int, g int) int = (3*g + 3 <= n) ? 10 : ((n - 3*g == 1) ? 4 : 7)
+//@ define qrGV(a map[int]int, n int, g int) int = (3*g + 3 <= n) ? (100*(a[3*g] - 48) + 10*(a[3*g+1] - 48) + (a[3*g+2] - 48)) : ((n - 3*g == 1) ? (a[3*g] - 48) : (10*(a[3*g] - 48) + (a[3*g+1] - 48)))
+//@ define qrNumBits(n int) int = (n / 3) * 10 + ((n % 3 == 1) ? 4 : ((n % 3 == 2) ? 7 : 0))
+
+//@ func encodeNumeric
+//@   attr init_tables qr.versionInfo
+//@   requires len(content) <= 10000000
+//@   ensures (result2 == nil) == (result0 != nil) && (result2 == nil) == (result1 != nil)
+//@   ensures result2 == nil ==> qrAllDig(content)
+//@   ensures result2 == nil ==> qrRow(result1) && result1.Level == ecl && fresh(result0) && result0.count == qrCap(result1) * 8 && qrHdr(result1, 1) + qrNumBits(len(content)) <= qrCap(result1) * 8
+//@   ensures result2 == nil ==> !result0.model[0] && !result0.model[1] && !result0.model[2] && result0.model[3]
+//@   ensures result2 == nil ==> (forall t int :: 0 <= t && t < qrCCB(result1, 1) ==> result0.model[4 + t] == qrBitOf(len(content), qrCCB(result1, 1), t))
+//@   ensures result2 == nil ==> (forall g int, t int :: 0 <= g && 3*g < len(content) && 0 <= t && t < qrGW(len(content), g) ==> result0.model[qrHdr(result1, 1) + 10*g + t] == qrBitOf(qrGV(bytes(content), len(content), g), qrGW(len(content), g), t))
+//@   loop 1 invariant 0 <= pos && pos % 3 == 0 && pos <= len(content) + 2 && res != nil && fresh(res) && qrRow(vi) && vi.Level == ecl && qrCap(vi) * 8 >= qrHdr(vi, 1) + qrNumBits(len(content))
+//@   loop 1 invariant forall k int :: 0 <= k && k < pos && k < len(content) ==> qrDig(content[k])
+//@   loop 1 invariant res.count == qrHdr(vi, 1) + ((pos <= len(content)) ? (10 * (pos / 3)) : qrNumBits(len(content)))
+//@   loop 1 invariant !res.model[0] && !res.model[1] && !res.model[2] && res.model[3]
+//@   loop 1 invariant forall t int :: 0 <= t && t < qrCCB(vi, 1) ==> res.model[4 + t] == qrBitOf(len(content), qrCCB(vi, 1), t)
+//@   loop 1 invariant forall g int, t int :: 0 <= g && 3*g < pos && 3*g < len(content) && 0 <= t && t < qrGW(len(content), g) ==> res.model[qrHdr(vi, 1) + 10*g + t] == qrBitOf(qrGV(bytes(content), len(content), g), qrGW(len(content), g), t)
